@@ -11,12 +11,15 @@ verus! {
 /// How many characters behind its end a token's identity can depend on under maximal munch:
 /// 1 for lexemes that a following character can extend or re-classify
 /// (identifiers and keywords, numbers, `0x..`, char literals, `:` `<` `>` `/`, and an unknown character such as a lone quote),
-/// 0 for closed symbols and end of file.  Comments are left unconstrained (end-of-file rule of the lexer is out of reach).
+/// 0 for closed symbols and end of file.  A comment ends with its newline or, on the last line, with the text (premise below, the
+/// nom lexer is out of reach): without the newline it grows with the next character, so the kind needs 1 as well (D13).
+//~assume (premise, re-checked textually every run) `Comment::lex` ends a comment with the newline or the end of the text: `alt((tag("\n"), eof))`; the nom lexer itself is not verified
+//@premise spl_frontend/src/lexer.rs :: impl Lexer for Comment :: fn lex contains "alt((tag(\"\\n\"), eof))"
 pub open spec fn needed_la(t: TokenType) -> int {
     match t {
         TokenType::If | TokenType::Else | TokenType::While | TokenType::Array | TokenType::Of | TokenType::Proc
         | TokenType::Ref | TokenType::Type | TokenType::Var | TokenType::Ident(_) | TokenType::Int(_) | TokenType::Hex(_)
-        | TokenType::Char(_) | TokenType::Colon | TokenType::Lt | TokenType::Gt | TokenType::Divide => 1,
+        | TokenType::Char(_) | TokenType::Colon | TokenType::Lt | TokenType::Gt | TokenType::Divide | TokenType::Comment(_) => 1,
         TokenType::Unknown(s) => if s@ == seq!['\''] { 1 } else { 0 },
         _ => 0,
     }
